@@ -27,6 +27,27 @@ CLAIMED = {
             "tolerances proportional to n*eps*kappa (kappa^2 for normal-equation routines). Exploration of the counted cases only.",
             "Trusted: oracle solvers in /verif/engine/oracle.hpp; system LAPACK is part of the tested code path, not of the oracle.",
             "DESIGN.md section 5, C12"),
+    "C01": ("property-based testing (rapidcheck, forked ASan/UBSan children): PCA identities recomputed in long double from an "
+            "independent preprocessing reference; bit-identity on repetition, equality across processor counts (hook H1)",
+            "Generated-input search over tall/square/wide matrices of controlled rank and spectrum, all 7 scalings, npc up to the rank "
+            "(npc = rank forced in a third of the cases): orthonormal loadings, scores = successive projections, residual orthogonal to "
+            "the loadings, variance bookkeeping, back-transformation and score prediction. Exploration of the counted cases only.",
+            "Trusted: oracle preprocessing/SVD in /verif/engine/oracle.hpp; tolerance derivations in props/C01.cpp (T1/T3).",
+            "DESIGN.md section 5, C01"),
+    "C02": ("property-based testing (rapidcheck): differential against a long-double cyclic Jacobi eigen-solver of E0'E0 plus metamorphic "
+            "relations (row permutation, column permutation, orthogonal rotation)",
+            "Generated-input search over matrices with controlled gap ratios (slow-convergence ratios forced in 45 % of the cases) and "
+            "magnitudes 1e-4..1e4; loadings/explained variance compared with the eigen-decomposition within the bound implied by the "
+            "documented stopping rule (T3). Exploration of the counted cases only.",
+            "Trusted: Jacobi solver in oracle.hpp; the T3 bound (safety factor 5) is derived in DESIGN.md section 4.",
+            "DESIGN.md section 5, C02"),
+    "C03": ("property-based testing (rapidcheck, forked ASan/UBSan children): PLS structural identities recomputed in long double from "
+            "the model fields and an independent preprocessing reference",
+            "Generated-input search over X/Y of controlled conditioning, 1..4 responses, all 49 scaling pairs, nlv up to rank: orthogonal "
+            "scores/weights, t_k = X_{k-1} w_k, residual orthogonality, score re-projection, LV-major layout of recalculated_y / "
+            "recalc_residuals, PLSYPredictor / PLSYPredictorAllLV. Exploration of the counted cases only.",
+            "Trusted: oracle preprocessing in oracle.hpp; orthogonality tolerance derived from the measured conditioning of each LV.",
+            "DESIGN.md section 5, C03"),
 }
 
 PENDING_REASON = "harness not built yet in this round (work in progress; see DESIGN.md section 5 for the planned check)"
